@@ -1068,7 +1068,11 @@ func collFilterProp(c CollFilterCase, r *pbt.R) error {
 	}
 	collLabels(r, ms)
 	for rep := 0; rep < reps; rep++ {
-		got := gogu.FilterMapCollection(buildAll(ms, rep), p)
+		coll := buildAll(ms, rep)
+		got := gogu.FilterMapCollection(coll, p)
+		if !sameSeq(coll, ms) {
+			return fmt.Errorf("maps=%s, predicate: value in %v (run %d): after FilterMapCollection the caller's collection reads %v (it is an argument: same maps, same order)", showSeq(ms), c.VS, rep, coll)
+		}
 		if !sameSeq(got, want) {
 			return fmt.Errorf("maps=%s, predicate: value in %v (run %d): FilterMapCollection = %v, want %s (every map with a qualifying value once, in order)",
 				showSeq(ms), c.VS, rep, got, showSeq(want))
@@ -1113,7 +1117,11 @@ func partitionProp(c PartitionCase, r *pbt.R) error {
 	}
 	collLabels(r, ms)
 	for rep := 0; rep < reps; rep++ {
-		got := gogu.PartitionMap(buildAll(ms, rep), mapPred(c.Mode, c.VS))
+		coll := buildAll(ms, rep)
+		got := gogu.PartitionMap(coll, mapPred(c.Mode, c.VS))
+		if !sameSeq(coll, ms) {
+			return fmt.Errorf("maps=%s, predicate: %s with vs=%v (run %d): after PartitionMap the caller's collection reads %v (it is an argument: same maps, same order)", showSeq(ms), modeNames[mod(c.Mode, 3)], c.VS, rep, coll)
+		}
 		if !sameSeq(got[0], yes) || !sameSeq(got[1], no) {
 			return fmt.Errorf("maps=%s, predicate: %s with vs=%v (run %d): PartitionMap = %v, want [%s %s] (non-empty maps routed by the predicate, in order)",
 				showSeq(ms), modeNames[mod(c.Mode, 3)], c.VS, rep, got, showSeq(yes), showSeq(no))
